@@ -10,6 +10,7 @@
    with any amounts and any number of changers (`good_init`). *)
 From Coq Require Import List ZArith NArith Bool.
 From Tele Require Import Gen.Consts Gen.GoFns Model.CounterConc Proofs.CounterWord Proofs.CounterInv Proofs.CounterThms Proofs.GoFnsCounter.
+From Tele Require Import Model.Register Proofs.RegisterFacts Proofs.CounterFault.
 Import ListNotations.
 Open Scope Z_scope.
 
@@ -103,6 +104,29 @@ Theorem C03_word_ops_are_the_go_code : forall b, 0 <= b < W64 ->
 Proof. exact word_ops_are_go. Qed.
 Print Assumptions C03_word_ops_are_the_go_code.
 
+(* The lock-free registration of counters in the file's list (file.register),
+   any number of goroutines, several of which may register the same counter,
+   every interleaving of the individual atomic operations: at every instant the
+   list from the head is a duplicate-free chain ending at the end marker, and
+   once all calls have returned every registered counter is in it (so every
+   later invalidation reaches it). *)
+Theorem C03_registration_list_well_formed : forall n who sched, Forall (fun c => c < n)%nat who ->
+  let '(s, ts) := rrun sched (rinit n who) in
+  exists l, HeadChain s l /\ NoDup l /\ (forall c, In c l -> (c < length (r_next s))%nat).
+Proof. exact list_well_formed. Qed.
+Print Assumptions C03_registration_list_well_formed.
+Theorem C03_registration_complete : forall n who sched, Forall (fun c => c < n)%nat who ->
+  let '(s, ts) := rrun sched (rinit n who) in
+  forallb rdone ts = true ->
+  exists l, HeadChain s l /\ NoDup l /\ forall t, In t ts -> In (rt_c t) l.
+Proof. exact all_registered. Qed.
+Print Assumptions C03_registration_complete.
+Theorem C03_registration_oracle : forall n who sched, Forall (fun c => c < n)%nat who ->
+  let '(s, ts) := rrun sched (rinit n who) in
+  list_ok s = true /\ (forallb rdone ts = true -> quiescent_ok s ts = true).
+Proof. exact oracle_accepts. Qed.
+Print Assumptions C03_registration_oracle.
+
 (* REFUTED clause (known finding `use-after-unmap`): "no call faults" is false of
    the faithful model: a reader parked before its cell load while a changer
    stores a new mapping, invalidates, refreshes and closes the old mapping then
@@ -126,6 +150,28 @@ Proof.
   vm_compute. intros H; discriminate H.
 Qed.
 Print Assumptions C03_no_fault_refuted.
+
+(* ... and that is the ONLY way a fault can arise: a closed mapping is never the
+   counter's pointer while a call could enter a section through it (havePtr is
+   clear, or the lock holder is inside lookup and about to overwrite it), so no
+   call ever ENTERS its reader section or starts a flush through a closed
+   mapping; an access through a closed mapping is made only by a call that was
+   already inside such a section when the mapping was closed (the known
+   finding).  The oracle class `entered-through-closed-mapping` is therefore an
+   ordinary violation. *)
+Theorem C03_closed_pointer_unusable : forall np s0 ts0 sched, good_init2 s0 ts0 ->
+  let '(s, ts) := run np sched (s0, ts0) in
+  forall g, In g (s_closed s) -> s_ptr s = Some g ->
+  w_have (s_word s) = false \/ 1 <= sumf look ts.
+Proof. exact closed_pointer_unusable_from_init. Qed.
+Print Assumptions C03_closed_pointer_unusable.
+Theorem C03_no_entry_through_closed_mapping : forall np s0 ts0 sched i u s' u', good_init2 s0 ts0 ->
+  let '(s, ts) := run np sched (s0, ts0) in
+  nth_error ts i = Some u -> step_thread np s u = (s', u') ->
+  (t_pc u = ACas /\ t_pc u' = ACellLoad) \/ (t_pc u = LCas /\ t_pc u' = LCellLoad) ->
+  forall g, s_ptr s = Some g -> ~ In g (s_closed s).
+Proof. exact no_entry_through_closed. Qed.
+Print Assumptions C03_no_entry_through_closed_mapping.
 
 (* Non-vacuity: a concrete run with three adders and a rotation ends with
    everything persisted. *)
